@@ -231,6 +231,14 @@ func (x *Unit) contractCtx(st *State, fr *frame) *specCtx {
 		c.scope = x.pkg.Types.Scope().Innermost(x.decl.Body.Lbrace + 1)
 		c.pos = x.decl.Body.Lbrace + 1
 	}
+	if fr != nil && c.pos.IsValid() {
+		// exit clauses may mention locals declared at the top level of the body (their value at the exit)
+		if x.lit != nil {
+			c.pos = x.lit.Body.Rbrace
+		} else {
+			c.pos = x.decl.Body.Rbrace
+		}
+	}
 	return c
 }
 
